@@ -53,6 +53,7 @@ pub fn fuzz_entry(id: &str, lane: &str) -> Option<&'static crate::engine::runner
         ("C04", "sequences") => Some(&c04::case_seq),
         ("C04", "threads-op-granularity") => Some(&c04::case_threads),
         ("C05", "schedules") => Some(&c05::case_sched),
+        ("C05", "histogram-entry-point") => Some(&c05::case_histogram_entry),
         ("C06", "sequential") => Some(&c06::case_seq),
         ("C06", "concurrent") => Some(&c06::case_conc),
         ("C06", "custom-key-colliding-hashes") => Some(&c06::case_custom_key),
@@ -72,6 +73,7 @@ pub fn fuzz_entry(id: &str, lane: &str) -> Option<&'static crate::engine::runner
         ("C15", "quantile-configs") => Some(&c15::case_quantile_cfg),
         ("C16", "sequential") => Some(&c16::case_seq),
         ("C16", "concurrent") => Some(&c16::case_conc),
+        ("C16", "through-the-exporter") => Some(&c16::case_exporter),
         ("C17", "span-trees") => Some(&c17::case_spans),
         ("C19", "direct-histories") => Some(&c19::case_direct),
         ("C19", "schedules") => Some(&c19::case_sched),
